@@ -194,6 +194,19 @@ func C10(c *Ctx) {
 		}
 		c.MarkDistinct(s.Name)
 	}
+	// the code bodies all the way to the output of the real entry points
+	if beng, err := LoadRepo("Builder"); err != nil {
+		c.Inconclusive("%v", err)
+	} else {
+		c.Harnesses = append(c.Harnesses, "harness/Builder/zz_verif_carry.go:VerifCarry")
+		c.Bound("prologue, %%union body and epilogue containing one of 11 snippets with characters special to fmt / text/template / regexp replacement / the action rewriting (solver-chosen), through TemplateGenFromString (go, -u, -o) and TsGenFromString: the bodies must be part of the data handed to the template resp. of the strings written to the file")
+		for v := 0; v <= 3; v++ {
+			v := v
+			run(SymJob{Name: "carry " + variantNames[v], Eng: beng, PkgPath: RepoModule + "/Builder", Entry: "VerifCarry", Args: []int{v},
+				Replay: ReplaySpec{Kind: "repo", PkgDirs: []string{"Builder"}}, Need: []string{"carried"},
+				Key: func(vi gosym.Violation) string { return "carry:" + variantNames[v] + ":" + vi.What }})
+		}
+	}
 	wg.Wait()
 	c.NeedCovers("read")
 	c.Programs = len(specs)
